@@ -37,16 +37,16 @@ type c19Lit struct {
 func c19Coefficients(tier string) []string {
 	z := func(n int) string { return strings.Repeat("0", n) }
 	cs := []string{"0", "1", "5", "9", "10", "15", "25", "99", "123456789",
-		"1" + z(33),                 // 10^33 (34 digits)
-		strings.Repeat("9", 34),     // 10^34-1
-		"1" + z(34),                 // 10^34 (35 digits)
-		"1" + z(33) + "1",           // 10^34+1
+		"1" + z(33),             // 10^33 (34 digits)
+		strings.Repeat("9", 34), // 10^34-1
+		"1" + z(34),             // 10^34 (35 digits)
+		"1" + z(33) + "1",       // 10^34+1
 		"1234567890123456789012345678901234567891", // 40 digits
 	}
 	if tier == "thorough" {
 		cs = append(cs, "2", "3", "7", "11", "101", "999999", "1"+z(6),
-			"1"+z(16)+"1",           // 10^17+1
-			strings.Repeat("9", 20), // 10^20-1
+			"1"+z(16)+"1",                         // 10^17+1
+			strings.Repeat("9", 20),               // 10^20-1
 			"123456789012345678901234567890123",   // 33 digits
 			"1234567890123456789012345678901234",  // 34 digits
 			"12345678901234567890123456789012345", // 35 digits
@@ -517,8 +517,10 @@ func (w *c19Worker) pair(i, j int) {
 			if resR == nil {
 				resR, _ = c19RatOf(&r.dec)
 			}
-			if name, msg := c19FollowUps(r.dec, resR); name != "" && r.err == nil {
-				report("C19/followup-"+name+"/panic", fmt.Sprintf("%s on the result %s panicked: %s", name, rs.str, msg))
+			for _, v := range c19FollowUps(r.dec, resR) {
+				if r.err == nil {
+					report(v.class, "on the result: "+v.detail)
+				}
 			}
 			if diff, _ := rs.check(&r.dec); diff != "" {
 				report("C19/followup/receiver-mutated", fmt.Sprintf("using the result %s as an operand of Add/Mul/Reduce/BigInt/SdkIntTrim/String modified it: %s", rs.str, diff))
@@ -566,7 +568,7 @@ func C19(tier string) int {
 		"the reference is math/big (big.Rat/big.Int) and verif/harness/ref.Parse; no function of types/math is used to compute an expected value",
 		"an error return is accepted for every operation (the statement allows 'exact result or an error'); error counts per operation are reported so that vacuous passes are visible",
 		"Mul/Quo accuracy demanded: |result-exact| < 1 unit of the 34th significant digit of the exact value (twice the half-unit of correct rounding)",
-		"SdkIntTrim is only evaluated for |value| < 2^255 (documented to panic beyond the SDK Int range); larger values are counted as skipped",
+		"SdkIntTrim is only evaluated for |value| < 2^255 (documented to panic beyond the SDK Int range); larger values are counted as skipped; BigInt (exact integer iff integral) and SdkIntTrim (truncation toward zero) are judged on every literal and on every finite result of every operation",
 		"QuoInteger, Rem, NumDecimalPlaces, Reduce and the empty string are not constrained by the statement: behaviour is recorded, only operand immutability and panics are judged",
 		"operand immutability is judged on the internal representation (form, sign, exponent, every word of the coefficient array up to its capacity, identity of the array) and on String(), after each operation and again after Add/Mul/Reduce/BigInt/SdkIntTrim/String were applied to the returned result and returned integers were overwritten in place",
 		"math.Dec internals are read through a layout mirror of apd.Decimal verified by reflection at start-up",
